@@ -232,6 +232,10 @@ inproc_pipe_close(void *arg)
 	inproc_pipe *pipe = arg;
 	inproc_pair *pair = pipe->pair;
 
+	if (pair == NULL) {
+		// never connected (the pipe could not be fully set up)
+		return;
+	}
 	for (int i = 0; i < 2; i++) {
 		inproc_queue *queue = &pair->queues[i];
 		nni_mtx_lock(&queue->lock);
